@@ -739,3 +739,14 @@ package commitlog
 //@   ensures [in-range] err == nil ==> 0 <= idx && idx < len(segments)
 //@   ensures [nothing-above-the-watermark-is-covered] err == nil ==> (forall i int64 :: 0 <= i && i < entryCount(segments[idx].Index) && entryOffAt(segments[idx].Index, i) > hw ==> entryPosAt(segments[idx].Index, i) >= pos)
 //@   ensures [everything-up-to-the-watermark-is-covered] err == nil ==> (forall i int64 :: 0 <= i && i < entryCount(segments[idx].Index) && entryOffAt(segments[idx].Index, i) <= hw ==> entryPosAt(segments[idx].Index, i) + entrySizeAt(segments[idx].Index, i) <= pos)
+
+// recoverTail (property C05): after recovery the log does not extend beyond what the index covers - complete
+// message sets found beyond the last entry were indexed, anything shorter was cut off - so the next append cannot be
+// given an offset the log already holds; the entry returned is the last one in the index
+//@ func (*segment).recoverTail serves C05
+//@   returns (last, err)
+//@   requires s != nil
+//@   assumes s.Index != nil && s.position >= 0 && s.position <= 2147483000 && (lastEntry != nil ==> lastEntry.Position >= 0 && lastEntry.Size >= 0)
+//@   ensures [no-bytes-beyond-the-index] err == nil ==> s.position <= (last == nil ? 0 : last.Position + int64(last.Size))
+//@   ensures [indexed-what-was-complete] err == nil && last != nil && last != lastEntry ==> s.position == last.Position + int64(last.Size)
+//@   loop 1 invariant pos >= 0 && pos <= s.position && pos == (lastEntry == nil ? 0 : lastEntry.Position + int64(lastEntry.Size)) && s.position == old(s.position) && (lastEntry != nil ==> allocated(lastEntry))
